@@ -367,6 +367,12 @@ def execute(schedule) -> Result:
                     res.truncated = f"sut_refused:{str(e)[:40]}"
                     break
                 except Exception as e:  # noqa: BLE001
+                    nis_sum = float(np.sum(want)) if want.size else 0.0
+                    if kind == "score" and isinstance(e, ValueError) and not (nis_sum > 0.0 and math.isfinite(1.0 / nis_sum + nis_sum)):
+                        # every NIS is exactly 0 (an all-zero row on a model that predicts 0): the documented combination
+                        # (1/sum + sum)/2 is not a finite number, and the library says so with a ValueError -- not a wrong value
+                        res.stats["probe:score_refused_nonfinite_combination"] += 1
+                        continue
                     res.add("C16", "raises", f"C16:py:raises:{kind}:{type(e).__name__}", i, f"{kind} returns", f"{type(e).__name__}: {str(e)[:200]}")
                     break
                 _check_values(res, i, kind, est, d, X, val, want, op.get("explain", False))
